@@ -59,6 +59,9 @@ struct St {
     /// identity of a task channel (address of its Arc, reported by Pool_Chan) -> generation
     chan_gen: HashMap<i64, i64>,
     thread_gen: HashMap<std::thread::ThreadId, i64>,
+    /// which worker id (or RECOVERY) an OS thread is, learned from its Worker_Spawned / Rec_Chan point - the
+    /// NAME of a pool thread is an implementation detail and is only a fallback
+    thread_role: HashMap<std::thread::ThreadId, i64>,
     cur_gen: i64,
     pending: HashMap<i64, VecDeque<usize>>,
     parked: HashMap<i64, usize>,
@@ -151,15 +154,18 @@ fn record(name: &'static str, a: i64, b: i64) {
         "Worker_Spawned" => {
             let g = st.chan_gen.get(&b).copied().unwrap_or(0);
             st.thread_gen.insert(tid, g);
+            st.thread_role.insert(tid, a);
             return;
         }
         "Rec_Chan" => {
             let g = st.chan_gen.get(&a).copied().unwrap_or(0);
             st.thread_gen.insert(tid, g);
+            st.thread_role.insert(tid, RECOVERY);
             return;
         }
         _ => {}
     }
+    let th = if th == CALLER { CALLER } else { st.thread_role.get(&tid).copied().unwrap_or(th) };
     let g = if th == CALLER { st.cur_gen } else { st.thread_gen.get(&tid).copied().unwrap_or(0) };
     let k = key(th, g);
     if st.events.len() >= MAX_EVENTS {
@@ -486,6 +492,7 @@ fn reset_state(gated: bool, perturb_seed: u64, perturb_pct: u64) {
     st.cur_task = 0;
     st.chan_gen.clear();
     st.thread_gen.clear();
+    st.thread_role.clear();
     st.cur_gen = 0;
     st.perturb_seed = perturb_seed;
     st.perturb_pct = perturb_pct;
